@@ -18,8 +18,10 @@ from mc.engine import Suite, BfsSuite, Out
 
 PROPERTY = 'C05'
 ASSUMPTIONS = [
-    'dates are midnight datetimes; every input date and every result lies more than 60 business days inside the calendar range '
-    '(2023-06-01..2024-10-31 for the configurations): adjust/add near the range ends are not claimed',
+    'suite configs: dates are midnight datetimes and every input date and every result lies more than 60 business days inside the calendar range '
+    '(2023-06-01..2024-10-31); suite range_ends: short ranges, every claim whose dates (t, adjust(t), result) all lie INSIDE [t0, t1] incl. the two end days '
+    '(what happens when a result would leave the range is not claimed), and t also given with a time of day: a date with a time of day denotes its day, '
+    'business days are returned as midnight datetimes',
     'holidays are given as midnight datetimes (non-midnight holiday entries are excluded)',
     'add(t, 0) is read as "the 0-th business day counted from adjust(t)" = adjust(t) with the calendar\'s own adj; for negative n from a '
     'non-business day the count also starts at adjust(t) (so Saturday, adj f, n=-1 is the Friday before: Monday minus one)',
@@ -113,6 +115,99 @@ def _critical(hol, weekend):
         if WD[h - 1] in we or WD[h + 1] in we or YM[h - 1] != YM[h] or YM[h + 1] != YM[h]:
             res.append(h)
     return res
+
+
+# ------------------------------------------------------------------------------------------------------------------
+# the ends of a SHORT calendar range, and dates that carry a time of day
+
+RANGE_T0 = [D(2024, 3, 1), D(2024, 3, 2), D(2024, 3, 4)]            # Friday, Saturday, Monday
+RANGE_T1 = [D(2024, 3, 28), D(2024, 3, 29), D(2024, 3, 30), D(2024, 4, 1)]   # Thursday, Friday (a business day), Saturday, Monday
+TOD = datetime.timedelta(hours=9, minutes=30)
+
+
+def gen_range_ends():
+    for a in range(len(RANGE_T0)):
+        for b in range(len(RANGE_T1)):
+            for mask in range(16):                    # holidays among the first two and the last two days of the range
+                for wk in (0, 1):
+                    for adj in ('f', 'p'):
+                        yield [a, b, mask, wk, adj]
+
+
+def check_range_ends(case):
+    """a calendar over a four-week range: every claim whose dates (t, adjust(t), the result) all lie inside [t0, t1] -- in particular those that
+    land exactly on the first / last day of the range; and every t also given with a time of day (09:30): the answers are those of t's day"""
+    from pyg_base import Calendar
+    a, b, mask, wk, adj = case
+    out = Out()
+    r0, r1 = IDX[RANGE_T0[a]], IDX[RANGE_T1[b]]
+    edge = [r0, r0 + 1, r1 - 1, r1]
+    hol = [edge[k] for k in range(4) if mask >> k & 1]
+    weekend = WEEKENDS[wk]
+    ref = Ref(set(hol), weekend, adj)
+    label = 'Calendar(holidays=%s, weekend=%s, t0=%s, t1=%s, adj=%r)' % ([DTS[h].strftime('%m-%d(%a)') for h in hol], weekend, DTS[r0].strftime('%Y-%m-%d(%a)'),
+                                                                       DTS[r1].strftime('%Y-%m-%d(%a)'), adj)
+    try:
+        cal = Calendar(None, holidays=[DTS[h] for h in hol], weekend=list(weekend), t0=DTS[r0], t1=DTS[r1], adj=adj)
+    except Exception as e:
+        out.viol('construct-raised', '%s: %s: %s' % (label, type(e).__name__, e))
+        return out
+    inside = lambda i: r0 <= i <= r1
+    fmt = lambda x: x.strftime('%m-%d(%a)%H:%M') if isinstance(x, datetime.datetime) else repr(x)
+    nviol = [0]
+
+    def bad(kind, msg, **sig):
+        nviol[0] += 1
+        if nviol[0] <= MAXV:
+            out.viol(kind, '%s: %s' % (label, msg), **sig)
+
+    def impl(f, *args, **k):
+        out.call()
+        try:
+            return f(*args, **k)
+        except Exception as e:
+            return e
+    for i in range(r0, r1 + 1):
+        out.sub()
+        t = DTS[i]
+        e0 = ref.adjust(i)
+        if not inside(e0):
+            out.cls('adjust-leaves-range')
+            continue
+        table = ref.walk(i, 25)
+        for tt, tod in ((t, False), (t + TOD, True)):
+            got = impl(cal.is_bday, tt)
+            if got != ref.is_bday(i):
+                bad('is_bday-wrong', 't=%s is_bday expected %s observed %r' % (fmt(tt), ref.is_bday(i), got), op='is_bday', tod=tod, range_end=True)
+            got = impl(cal.adjust, tt)
+            if got != DTS[e0]:
+                bad('adjust-wrong', 't=%s adjust(t) expected %s observed %s' % (fmt(tt), fmt(DTS[e0]), fmt(got)), op='adjust', tod=tod, range_end=True)
+            for n in range(-25, 26):
+                x = table[n]
+                if not inside(x):
+                    continue
+                on_end = x in (r0, r1) or e0 in (r0, r1)
+                got = impl(cal.add, tt, n)
+                if got != DTS[x]:
+                    bad('add-wrong', 't=%s add(t, %d) expected %s observed %s' % (fmt(tt), n, fmt(DTS[x]), fmt(got)), op='add', path='loop' if abs(n) <= 1 else 'table', tod=tod,
+                        on_range_end=on_end)
+                    continue
+                got = impl(cal.bdays, tt, DTS[x])
+                if got != n:
+                    bad('bdays-wrong', 't=%s bdays(t, %s) expected %d observed %r' % (fmt(tt), fmt(DTS[x]), n, got), op='bdays', tod=tod, on_range_end=on_end)
+                if on_end:
+                    out.nontrivial('%d|%d|%s' % (i - r0, n, tod))
+                out.cls('lands-on-range-end' if x in (r0, r1) else 'inside')
+            for j in (r1, r1 - 1, i):
+                ej = ref.adjust(j)
+                if j < i or not inside(ej):
+                    continue
+                want = [DTS[k] for k in ref.between(e0, ej)]
+                got = impl(cal.drange, tt, DTS[j] + (TOD if tod else datetime.timedelta(0)), '1b')
+                if got != want:
+                    bad('drange-wrong', "drange(%s, %s, '1b') expected %s observed %s" % (fmt(tt), fmt(DTS[j]), [fmt(x) for x in want],
+                                                                                        [fmt(x) for x in got] if isinstance(got, list) else got), op='drange', tod=tod, on_range_end=ej in (r0, r1))
+    return out
 
 
 def gen_configs(w, nsname):
@@ -440,5 +535,10 @@ def suites(tier, seed):
                    'boundary within 8 days of t' % (w, w, len(ns), min(ns), max(ns), len([n for n in ns if n in BUMP_NS])),
               bounds=dict(window_days=w, holiday_subsets=2 ** w, placements=2, weekends=len(WEEKENDS), adj=len(ADJS), n_values=len(ns),
                           n_min=min(ns), n_max=max(ns), t_days=w + 2 * PAD)),
+        Suite('range_ends', gen_range_ends, check_range_ends,
+              rule='calendars over a four-week range (3 first days x 4 last days: business days and weekend days) x every holiday subset of the first two and last two days '
+                   'of the range x 2 weekends x adj f/p: for every t of the range, as a midnight date and with a time of day (09:30), is_bday, adjust, add(t, n) + bdays for '
+                   "every n in [-25, 25] whose result lies inside the range, drange '1b' up to the last days; non-trivial = a date involved IS the first or last day of the range",
+              bounds=dict(range_days=32, first_days=len(RANGE_T0), last_days=len(RANGE_T1), holiday_subsets=16, n_min=-25, n_max=25)),
         Registry(depth),
     ]
